@@ -11,7 +11,7 @@ CID = "C15"
 
 def check(run, replay=None):
     tier = run.tier
-    C.standard_coq_phase(run, CID)
+    C.standard_coq_phase(run, CID, gens=("band", "engines"))
     ok, msg = C.ensure_ocaml()
     bd = C.build_dir()
     exe = os.path.join(bd, "c15")
